@@ -60,16 +60,17 @@ class Deseasonalizer(_SeriesToSeriesTransformer):
 
     def _align_seasonal(self, y):
         """Align seasonal components with y's time index"""
-        shift = (
-            -_get_duration(
-                y.index[0],
-                self._y_index[0],
-                coerce_to_int=True,
-                unit=_get_freq(self._y_index),
-            )
+        # the season of each time point is its distance from the start of the
+        # training series modulo sp; computed per time point so that series with
+        # gaps in their time index (e.g. gapped forecasting horizons) are aligned
+        # correctly too
+        unit = _get_freq(self._y_index)
+        phases = [
+            _get_duration(time_point, self._y_index[0], coerce_to_int=True, unit=unit)
             % self.sp
-        )
-        return np.resize(np.roll(self.seasonal_, shift=shift), y.shape[0])
+            for time_point in y.index
+        ]
+        return np.asarray(self.seasonal_)[phases]
 
     def fit(self, Z, X=None):
         """Fit to data.
